@@ -277,7 +277,9 @@ Section Exec.
         | None => (st, false)                                   (* "cannot resolve re-exported name" *)
         | Some ob =>
           let in_all := match all_of modid with None => false | Some l => mem_name orig l end in
-          if in_all then (st, false)
+          if match parent_path (o_path ob) with None => true | Some _ => false end
+          then (st, false)                                       (* `if ob.parent is None`: a root module is not moved *)
+          else if in_all then (st, false)
           else match by_id st cid with
                | Some cur => (reparent st ob cur asn, true)
                | None => (st, false)
